@@ -38,6 +38,8 @@ class ScriptEnv:
         self.log: list[dict[str, Any]] = []
         self.connections = 1
         self.refuse_connect = 0  # number of upcoming connect() calls that fail
+        self.write_delay = 0.0   # seconds a successful write takes (flow control, gateway acknowledgement, ...)
+        self.reply_delay = 0.0   # seconds after which a scripted reply arrives (applied when it fits the read timeout)
 
     def dispose(self) -> None:
         _REGISTRY.pop(self.key, None)
@@ -92,6 +94,8 @@ class ScriptedTransport(BaseTransport, scheme="fake"):
                     await asyncio.Event().wait()
                 await asyncio.sleep(timeout or 0)
                 raise TimeoutError("scripted: write timed out")
+            if self.env.write_delay and (timeout is None or self.env.write_delay < timeout):
+                await asyncio.sleep(self.env.write_delay)
             return len(data)
         finally:
             self.env.rec(e="W", data=data.hex(), timeout=timeout)
@@ -113,6 +117,8 @@ class ScriptedTransport(BaseTransport, scheme="fake"):
             if cls == "Empty":
                 return b""
             assert data is not None
+            if self.env.reply_delay and (timeout is None or self.env.reply_delay < timeout):
+                await asyncio.sleep(self.env.reply_delay)
             return data
         finally:
             if cls == "Timeout":
